@@ -379,10 +379,11 @@ class ToPeriods:
         return forall(int, lambda j: implies(0 <= j and j < len(result), period_in_range(result[j])))
 
     def loop0_inv(k, periods, str_periods):
-        # what the code guarantees: the two negated comparisons of the range test
+        # every period kept so far is within the documented range: NOT preserved by the present range test (two negated
+        # comparisons, both false for NaN) - this is where Appendix A6 shows for to_periods; it is preserved once the
+        # test is written `not 1.0 <= period <= 3600.0`
         return (was_fresh(periods) and len(periods) == k and 1 <= len(str_periods) and len(str_periods) <= 3
-                and forall(int, lambda j: implies(0 <= j and j < len(periods),
-                                                  not (1.0 > periods[j]) and not (periods[j] > 3600.0))))
+                and forall(int, lambda j: implies(0 <= j and j < len(periods), period_in_range(periods[j]))))
 
     def loop0_modifies(periods):
         return [contents(periods)]
